@@ -353,6 +353,7 @@ class Machine:
         s.overflow_mode = 'panic'          # 'panic' (dev profile) | 'wrap' (release profile)
         s.task_mode = True                 # ignore preemption points
         s.fine_points = False              # thread mode: additionally preempt before every access to shared state (lock, atomic, semaphore)
+        s.lock_probe = False               # the crate probes locks without blocking (try_lock ...): callbacks under a lock are schedule points too
         s.allow_block = False              # a thread that finds a lock held elsewhere stops (at_point blocked) and retries when scheduled again
         s.record_queries = False
 
